@@ -39,7 +39,24 @@ pub fn gramset(t: &TextOwn) -> BTreeSet<[char; 3]> {
 pub fn compose_table_for(code: &str) -> &'static BTreeMap<(char, char), char> {
     use std::sync::OnceLock;
     static T: OnceLock<Vec<(&'static str, BTreeMap<(char, char), char>)>> = OnceLock::new();
-    let all = T.get_or_init(|| crate::gen::LANGS.iter().map(|c| (*c, compose_table(&crate::gen::lang_of(c)))).collect());
+    let all = T.get_or_init(|| {
+        crate::gen::LANGS
+            .iter()
+            .map(|c| {
+                // pairs the language itself reports (sound if a language gains a pair) ...
+                let mut t = compose_table(&crate::gen::lang_of(c));
+                // ... but WHAT a known pair composes to is pinned: the canonical precomposed letter
+                // (a table that starts answering with a look-alike must be noticed)
+                for (d, pc) in crate::tables::compose_pairs(c) {
+                    let mut it = d.chars();
+                    if let (Some(b), Some(m), Some(x)) = (it.next(), it.next(), pc.chars().next()) {
+                        t.insert((b, m), x);
+                    }
+                }
+                (*c, t)
+            })
+            .collect()
+    });
     &all.iter().find(|(c, _)| *c == code).expect("lang").1
 }
 
